@@ -681,6 +681,31 @@ def gen_bars_tempo(shard):
                         yield {"voices": v, "meter": list(cfg["meter"]), "bpm": 120, "channels": [1, 2]}
 
 
+def gen_bars_tempo2(shard):
+    """two tempo-carrying containers, one in each bar, at every pair of (container) positions with different
+    onsets: the earlier carrier may still sound, or end on the very beat, when the later one sets its tempo."""
+    setname, ia = shard
+    cfg = PAR_CFG[setname]
+    pats = cfg["patterns"]
+    a = pats[ia]
+    for b in pats:
+        ca, cb = cfg["cycles"][0]
+        va, vb = voice_bar(a, ca, 0), voice_bar(b, cb, 1)
+        ona = [sum((T.entry_length(e[0]) for e in va[:i]), Fraction(0)) for i in range(len(va))]
+        onb = [sum((T.entry_length(e[0]) for e in vb[:j]), Fraction(0)) for j in range(len(vb))]
+        for i, ea in enumerate(va):
+            if ea[1] is None:
+                continue
+            for j, eb in enumerate(vb):
+                if eb[1] is None or ona[i] == onb[j]:      # two tempi at one instant: no reading (see ASSUMPTIONS)
+                    continue
+                for (x, y) in ((60, 240), (200, 80)):
+                    v = [[list(e) for e in va], [list(e) for e in vb]]
+                    v[0][i][2] = x
+                    v[1][j][2] = y
+                    yield {"voices": v, "meter": list(cfg["meter"]), "bpm": 120, "channels": [1, 2]}
+
+
 # ---------------------------------------------------------------------------------------
 # clause: tracks  (play_Tracks / play_Composition)
 # ---------------------------------------------------------------------------------------
@@ -958,34 +983,43 @@ CC_LO, CC_HI = -2, 130
 def run_cc(case):
     S = engine.S
     S.sample(case)
-    channel, control, value = case
+    channel, control, value = case[:3]
+    via = case[3] if len(case) > 3 else "control_change"
     seq, observers = rig()
-    ret = seq.control_change(channel, control, value)
+    if via == "control_change":
+        ret = seq.control_change(channel, control, value)
+    else:
+        # the named controllers: modulation = 1, main volume = 7, pan = 10
+        if CC_NAMED[via] != control:
+            raise engine.HarnessError("named controller %r is not number %r" % (via, control))
+        ret = getattr(seq, via)(channel, value)
+        S.count("cc_through_named_method")
     S.trans(1)
     refused = control < 0 or control > 128 or value < 0 or value > 128
     if refused:
         S.count("cc_refused")
         if ret:
-            S.problem("control_change return value", "refused (False)", ret)
+            S.problem("%s return value" % via, "refused (False)", ret)
         if seq.stream:
-            S.problem("control_change: hook events of a refused control change", [], seq.stream)
+            S.problem("%s: hook events of a refused control change" % via, [], seq.stream)
         for name, o in observers:
             if o.stream:
-                S.problem("control_change: events received by the attached %s for a refused control change" % name, [], o.stream)
+                S.problem("%s: events received by the attached %s for a refused control change" % (via, name), [], o.stream)
     elif isinstance(control, float) or isinstance(value, float):
         # fractional numbers inside the range: the statement only says what must be refused
         S.count("cc_fractional_in_range_not_judged")
     else:
         S.count("cc_accepted")
         if not ret:
-            S.problem("control_change return value", "accepted (True)", ret)
+            S.problem("%s return value" % via, "accepted (True)", ret)
         want = [("cc", channel, control, value)]
         if seq.stream != want:
-            S.problem("control_change: hook events", want, seq.stream)
+            S.problem("%s: hook events" % via, want, seq.stream)
         check_observers(S, seq, observers, "control_change")
     S.outcome((bool(ret), len(seq.stream)))
 
 
+CC_NAMED = {"modulation": 1, "main_volume": 7, "pan": 10}
 CC_FRACTIONS = [-1.5, -0.5, -0.001, 0.5, 127.5, 128.001, 128.5, 129.5]
 
 
@@ -993,6 +1027,9 @@ def gen_cc(control):
     for value in range(CC_LO, CC_HI + 1):
         for channel in (0, 1, 15):
             yield [channel, control, value]
+            for via, nr in sorted(CC_NAMED.items()):
+                if nr == control:
+                    yield [channel, control, value, via]
     # numbers just outside the bounds that are not integers ("below 0 or above 128" is said of numbers)
     for x in CC_FRACTIONS:
         yield [1, control, x]
@@ -1067,6 +1104,9 @@ def explore(ctx):
         ctx.bound("bars_tempo", {"2/4 patterns": len(PAR_CFG["m24"]["patterns"]), "cycles": PAR_CFG["m24"]["cycles"],
                                  "carried bpm": PAR_CFG["m24"]["bpms"]})
         ctx.product("bars_tempo", [("m24", i) for i in range(len(PAR_CFG["m24"]["patterns"]))], gen_bars_tempo)
+        PAR_CFG["m24b"] = dict(PAR_CFG["m24"], patterns=rhythm_patterns(R24, ctx.pick(3, 4), Fraction(1, 2)))
+        ctx.bound("bars_tempo two carriers", {"2/4 patterns": len(PAR_CFG["m24b"]["patterns"]), "carried bpm pairs": [[60, 240], [200, 80]]})
+        ctx.product("bars_tempo", [("m24b", i) for i in range(len(PAR_CFG["m24b"]["patterns"]))], gen_bars_tempo2)
     if ctx.want("tracks"):
         TRK_CFG[1] = {"voices": pt_voice_ids(3)}
         TRK_CFG[2] = {"voices": pt_voice_ids(2)}
